@@ -13,11 +13,11 @@ git checkout -q -- . 2>/dev/null; rm -f "$DEMONAME"
 git apply SEED/patch.diff || { echo "VERIFY: patch does not apply to the unchanged tree"; exit 1; }
 go build ./... || { echo "VERIFY: does not build"; exit 1; }
 echo "--- suite with change"
-flock /tmp/rpc-test.lock go test -vet=off -count=1 -timeout 20m . 2>&1 | tail -2
+unshare -n sh -c "ip link set lo up; exec go test \"\$@\"" sh -vet=off -count=1 -timeout 20m . 2>&1 | tail -2
 cp "$DEMO" "$DEMONAME"
 echo "--- demo with change (expect FAIL)"
-flock /tmp/rpc-test.lock go test -vet=off -count=1 -timeout 10m -run "^($TESTS)\$" . 2>&1 | tail -4
+unshare -n sh -c "ip link set lo up; exec go test \"\$@\"" sh -vet=off -count=1 -timeout 10m -run "^($TESTS)\$" . 2>&1 | tail -4
 git checkout -q -- .
 echo "--- demo without change (expect ok)"
-flock /tmp/rpc-test.lock go test -vet=off -count=1 -timeout 10m -run "^($TESTS)\$" . 2>&1 | tail -2
+unshare -n sh -c "ip link set lo up; exec go test \"\$@\"" sh -vet=off -count=1 -timeout 10m -run "^($TESTS)\$" . 2>&1 | tail -2
 rm -f "$DEMONAME"
